@@ -32,6 +32,7 @@ import (
 	"github.com/henrylee2cn/erpc/v6/proto/httproto"
 	"github.com/henrylee2cn/erpc/v6/proto/jsonproto"
 	"github.com/henrylee2cn/erpc/v6/proto/pbproto"
+	"github.com/henrylee2cn/erpc/v6/proto/pbproto/pb"
 	"github.com/henrylee2cn/erpc/v6/proto/thriftproto"
 )
 
@@ -165,6 +166,15 @@ func HT(ctx erpc.CallCtx, a *Test) (*Test, *erpc.Status) {
 	return &Test{Author: a.Author + "!"}, st
 }
 
+// HP: protobuf message argument (protobuf codec)
+func HP(ctx erpc.CallCtx, a *pb.Payload) (*pb.Payload, *erpc.Status) {
+	failed, st := act()
+	if failed {
+		return nil, st
+	}
+	return &pb.Payload{ServiceMethod: a.ServiceMethod + "!", Seq: a.Seq + 1}, st
+}
+
 // ---------------------------------------------------------------- connection management
 
 type link struct {
@@ -179,6 +189,7 @@ type link struct {
 	pathH   string
 	pathHS  string
 	pathHT  string
+	pathHP  string
 }
 
 func newLink(proto string) *link {
@@ -206,6 +217,7 @@ func newLink(proto string) *link {
 	l.pathH = l.srv.RouteCallFunc(H)
 	l.pathHS = l.srv.RouteCallFunc(HS)
 	l.pathHT = l.srv.RouteCallFunc(HT)
+	l.pathHP = l.srv.RouteCallFunc(HP)
 	if strings.HasPrefix(proto, "ws-") {
 		lis, err := net.Listen("tcp", "127.0.0.1:0")
 		Must(err)
@@ -314,6 +326,14 @@ func (l *link) run(c *caseCfg) observation {
 		r := &Test{}
 		result = r
 		check = func() (bool, string) { return r.Author == "ann!", fmt.Sprintf("%q", r.Author) }
+	case c.codec == 'p':
+		sm = l.pathHP
+		args = &pb.Payload{ServiceMethod: "ann", Seq: 6}
+		r := &pb.Payload{}
+		result = r
+		check = func() (bool, string) {
+			return r.ServiceMethod == "ann!" && r.Seq == 7, fmt.Sprintf("%q/%d", r.ServiceMethod, r.Seq)
+		}
 	case c.codec == 's':
 		sm = l.pathHS
 		a := "plain"
@@ -649,9 +669,9 @@ func codecsFor(proto string) []byte {
 	case "thrift-struct":
 		return []byte{'t'}
 	case "thrift-binary":
-		return []byte{'j', 's', 'x', 't'}
+		return []byte{'j', 's', 'x', 'p', 't'}
 	}
-	return []byte{'j', 's', 'x'}
+	return []byte{'j', 's', 'x', 'p'}
 }
 
 func genCase(cfg *RunCfg, proto string) *caseCfg {
@@ -669,7 +689,7 @@ func genCase(cfg *RunCfg, proto string) *caseCfg {
 		c.handler = "panic"
 		c.pval = "hp:" + genText(cfg, utf8Only)
 	case k == 12:
-		if c.codec != 't' { // HT's result type is a pointer: a nil result would be a typed nil
+		if c.codec != 't' && c.codec != 'p' { // HT's / HP's result type is a pointer: a nil result would be a typed nil
 			c.handler = "nilresult"
 		}
 	case k < 15:
@@ -962,7 +982,7 @@ func main() {
 		}()
 	}
 	merged := NewStats("C04", cfg)
-	merged.Rule = "cases = complete calls client peer -> server peer over each of the 8 shipped protocols (own process each) x body codec {json, plain, xml, thrift where supported} x {handler ok / generated status (codes incl. 0, +-1, 1000, int32 extremes, random; msg and cause over all byte values incl. & = % +, non-UTF-8 where the status field is query-encoded, valid UTF-8 for httproto's JSON) / panic / nil result} x framework failure {404 unknown route, 400 undecodable arguments, 102 connection closed during the handler} x server plugin veto at {postReadCallHeader, preReadCallBody, postReadCallBody} x client plugin veto at {preWriteCall, postReadReplyHeader, preReadReplyBody, postReadReplyBody} x caller result type {matching, unable to hold the reply}; distinct by case description; non-trivial = anything but a plain successful call"
+	merged.Rule = "cases = complete calls client peer -> server peer over each of the 8 shipped protocols (own process each) x body codec {json, plain, xml, protobuf, thrift where supported} x {handler ok / generated status (codes incl. 0, +-1, 1000, int32 extremes, random; msg and cause over all byte values incl. & = % +, non-UTF-8 where the status field is query-encoded, valid UTF-8 for httproto's JSON) / panic / nil result} x framework failure {404 unknown route, 400 undecodable arguments, 102 connection closed during the handler} x server plugin veto at {postReadCallHeader, preReadCallBody, postReadCallBody} x client plugin veto at {preWriteCall, postReadReplyHeader, preReadReplyBody, postReadReplyBody} x caller result type {matching, unable to hold the reply}; distinct by case description; non-trivial = anything but a plain successful call"
 	var all bytes.Buffer
 	base := 0
 	for i, p := range protoNames {
